@@ -234,12 +234,15 @@ PROPS["C05"] = {
 }
 
 PROPS["C11"] = {
-  "units": ["framing"],
+  "units": ["framing", "routerrecv"],
   "kani_quick": [], "kani_thorough": [],
   "claim": "Envelope handling only, proved for every message shape (any number of frames up to the container limit, empty frames anywhere): ROUTER's automatic delimiter is inserted right after the identity and removed from exactly that slot, "
            "DEALER's is prepended and stripped, the payload frames after it are unchanged frame for frame (decode after encode restores the payload); REP's extract_routing_prefix splits at the first empty frame, loses and reorders nothing, "
-           "and treats a message without delimiter as all payload.",
-  "level_note": "Not covered: RouterMap (identity <-> connection maps behind two RwLocks: identity collisions, reconnect histories), the identity gate versus racing messages, ROUTER_MANDATORY error mapping, REQ's envelope handling in req_socket.rs "
+           "and treats a message without delimiter as all payload. "
+           "ROUTER's receive loop (RouterSocket::recv_logical_finalized, its tokio::select! desugared to a nondeterministic choice between the arms, rewrite R12): a batch reaches the application only from a pipe whose identity is finalized "
+           "(so it is never labelled with a placeholder for a peer that announced an identity), every batch taken from the queue is either the one returned or parked in arrival order (never dropped), "
+           "and the finalize signal is subscribed to before the last check for releasable data (no lost wake-up window).",
+  "level_note": "The identity gate itself (pipe_finalized DashMap, held_ingress map, take_finalized_held with HashMap::keys().find()) enters as an abstract stand-in with a monotone `finalized` predicate. Not covered: RouterMap (identity <-> connection maps behind two RwLocks: identity collisions, reconnect histories), the identity gate versus racing messages, ROUTER_MANDATORY error mapping, REQ's envelope handling in req_socket.rs "
                 "(inside async code with tokio::select!). Encode requires the batch to have room for one more frame (derived precondition len < 255).",
   "technique": "contract-based deductive verification (Verus; FrameBatch as Seq<Msg> view, proved for the real FrameBatch in unit framebatch)",
   "trusted_base": COMMON_TRUSTED + ["prelude/framebatch.rs: FrameBatch as Seq<Msg> (proved for the real FrameBatch in unit framebatch)"],
@@ -247,15 +250,17 @@ PROPS["C11"] = {
 }
 
 PROPS["C14"] = {
-  "units": ["iface", "route", "egress", "batch", "anon"],
+  "units": ["iface", "route", "egress", "batch", "anon", "routerrecv"],
   "kani_quick": [], "kani_thorough": [],
   "claim": "Error mapping only, proved on the verbatim async functions of the session-backed connection interface (ScaConnectionIface): with SNDTIMEO = 0 a full pipe yields would-block at once and the batch is handed back unchanged; "
            "with SNDTIMEO = -1 send_multipart_owned never answers would-block or timeout (untimed wait); errors are only would-block / timeout / connection-closed; try_send_multipart_owned_sync and try_route_sync hand a refused batch back intact; "
            "EgressBuffer's message counter (the SNDHWM gate of the session) follows pushes and fully written chunks exactly and ignores control frames. "
            "Receive side (unit anon: AnonymousIngressEngine::recv / recv_multipart, AddressedIngressEngine::recv_logical_message): RCVTIMEO = 0 never waits on the queue and never answers timeout; would-block is answered only for RCVTIMEO = 0; "
            "timeout is answered only after a timed wait of exactly RCVTIMEO on the queue; RCVTIMEO = -1 never answers timeout or would-block; a failed receive consumes nothing. "
+           "ROUTER (unit routerrecv, ghost clock): RCVTIMEO = 0 arms no timer and never waits; timeout is answered only for a positive RCVTIMEO and not before first-clock-reading + RCVTIMEO; "
+           "EVERY timer the receive loop arms expires at that one deadline however often the loop goes round (not unboundedly later); RCVTIMEO = -1 arms no timer. "
            "Two known findings are reported: send_message / send_multipart turn SNDTIMEO = -1 into a 30 s timed wait followed by would-block.",
-  "level_note": "Elapsed-time accuracy (no earlier than / not unboundedly later: the ghost wait log records the duration handed to tokio::time::timeout, not wall time), ROUTER's own deadline loop (recv_logical_finalized, tokio::select!), and 'buffering stays within HWM + a fixed allowance under any producer/consumer speeds' are runtime/schedule properties: not covered. "
+  "level_note": "Elapsed-time accuracy (no earlier than / not unboundedly later: the ghost wait log records the duration handed to tokio::time::timeout, not wall time; for ROUTER the ghost clock bounds every armed timer by the one deadline), and 'buffering stays within HWM + a fixed allowance under any producer/consumer speeds' are runtime/schedule properties: not covered. "
                 "The pipe (fibre BoundedAsyncSender) and tokio::time::timeout enter as abstract stand-ins: try_send never waits and returns the refused item; a timed send either completes, fails, or elapses.",
   "technique": "contract-based deductive verification (Verus on extracted async fns; abstract channel/timeout stand-ins) with two recorded known findings",
   "trusted_base": COMMON_TRUSTED + ["fibre BoundedAsyncSender::{try_send, send} and tokio::time::timeout as abstract stand-ins (units/iface.py glue)", "prelude/time.rs"],
